@@ -25,7 +25,16 @@ pub enum Mode {
     /// the private chunk loops through the verif hook: harness-chosen key, aad, chunk size
     Hook { key: Hx, aad: Hx, cs: u32 },
     /// public key_encrypt / key_decrypt at the production chunk size
-    Key { s_priv: Hx, r_priv: Hx, e_priv: Option<Hx>, payload: Option<Hx> },
+    Key {
+        s_priv: Hx,
+        r_priv: Hx,
+        e_priv: Option<Hx>,
+        payload: Option<Hx>,
+        /// pass Some(ephemeral private) but None for its public key (the documented contract then
+        /// generates a fresh ephemeral pair, so randomness is implementation-chosen)
+        #[serde(default)]
+        omit_e_pub: bool,
+    },
     /// public pass_encrypt / pass_decrypt
     Pass { password: Hx, salt: Hx },
 }
@@ -34,7 +43,7 @@ impl Mode {
     pub fn class(&self) -> String {
         match self {
             Mode::Hook { cs, aad, .. } => format!("hook{}{}", cs, if aad.0.is_empty() { "" } else { "a" }),
-            Mode::Key { e_priv, .. } => format!("key{}", if e_priv.is_some() { "F" } else { "R" }),
+            Mode::Key { e_priv, omit_e_pub, .. } => format!("key{}{}", if e_priv.is_some() { "F" } else { "R" }, if *omit_e_pub { "o" } else { "" }),
             Mode::Pass { .. } => "pass".into(),
         }
     }
@@ -149,12 +158,12 @@ pub fn run_encrypt(mode: &Mode, pt: &[u8], rs: &ReadScript, ws: &WriteScript, tr
         Mode::Hook { key, aad, cs } => {
             kestrel_crypto::encrypt::verif_encrypt_chunks(&mut src, &mut sink, &key.0, &aad.0, *cs)
         }
-        Mode::Key { s_priv, r_priv, e_priv, payload } => {
+        Mode::Key { s_priv, r_priv, e_priv, payload, omit_e_pub } => {
             let s = PrivateKey::try_from(&s_priv.0[..]).unwrap();
             let spk = PublicKey::try_from(&pubkey_of(&s_priv.a32())[..]).unwrap();
             let rpk = PublicKey::try_from(&pubkey_of(&r_priv.a32())[..]).unwrap();
             let e = e_priv.as_ref().map(|e| PrivateKey::try_from(&e.0[..]).unwrap());
-            let epk = e_priv.as_ref().map(|e| PublicKey::try_from(&pubkey_of(&e.a32())[..]).unwrap());
+            let epk = if *omit_e_pub { None } else { e_priv.as_ref().map(|e| PublicKey::try_from(&pubkey_of(&e.a32())[..]).unwrap()) };
             let pk = payload.as_ref().map(|p| PayloadKey::new(&p.0));
             kestrel_crypto::encrypt::key_encrypt(
                 &mut src,
@@ -242,7 +251,7 @@ pub fn reference_file(mode: &Mode, pt: &[u8], sizes: &[usize], scrypt_cache: &mu
             rf::write_chunks(&mut out, &key.a32(), &aad.0, pt, sizes);
             Some(out)
         }
-        Mode::Key { s_priv, r_priv, e_priv: Some(e), payload: Some(p) } => {
+        Mode::Key { s_priv, r_priv, e_priv: Some(e), payload: Some(p), omit_e_pub: false } => {
             let s = s_priv.a32();
             let e = e.a32();
             Some(rf::write_key_file(
